@@ -347,6 +347,9 @@ const (
 	FinEOFWithData
 	FinUnexpectedEOF
 	FinOther
+	// the error text net/http's HTTP/2 transport produces when the peer resets the stream
+	FinRSTNoError // RST_STREAM(NO_ERROR): the library codes it internal
+	FinRSTCancel  // RST_STREAM(CANCEL): the library codes it canceled
 )
 
 func (f FinKind) Coq() string {
@@ -357,8 +360,19 @@ func (f FinKind) Coq() string {
 		return "EOFWithData"
 	case FinUnexpectedEOF:
 		return "(Fail EUnexpectedEOF)"
+	case FinRSTNoError:
+		return "(Fail (ECoded 13))"
+	case FinRSTCancel:
+		return "(Fail (ECoded 1))"
 	}
 	return "(Fail EOther)"
+}
+
+// ErrRST mimics golang.org/x/net/http2.StreamError as received from the peer.
+type ErrRST struct{ Code string }
+
+func (e ErrRST) Error() string {
+	return "stream error: stream ID 7; " + e.Code + "; received from peer"
 }
 
 var ErrTransport = errors.New("verif: injected transport error")
@@ -398,6 +412,10 @@ func (b *ChunkBody) endErr() error {
 		return io.EOF
 	case FinUnexpectedEOF:
 		return io.ErrUnexpectedEOF
+	case FinRSTNoError:
+		return ErrRST{"NO_ERROR"}
+	case FinRSTCancel:
+		return ErrRST{"CANCEL"}
 	}
 	return ErrTransport
 }
